@@ -59,6 +59,24 @@ func RunC14(tier string) int {
 				t.Timeout = "3s"
 			}
 		}
+		// several checks on one target, of both flavours, in either order: every one of them counts
+		for _, t := range s.Targets {
+			if len(t.Checks) == 1 && r.Chance(1, 2) {
+				for j := r.Range(1, 2); j > 0; j-- {
+					m := fmt.Sprintf("markers/x%d_%s", j, t.Name)
+					c := spec.Check{Marker: m}
+					if r.Chance(1, 2) {
+						c.Expected = "ok"
+					}
+					if r.Chance(1, 2) {
+						t.Checks = append(t.Checks, c)
+					} else {
+						t.Checks = append([]spec.Check{c}, t.Checks...)
+					}
+					markers = append(markers, m)
+				}
+			}
+		}
 		env, err := NewEnv(st.Base, fmt.Sprintf("c%d", i), st.Grog, st.Vctl, s, randCfg(r))
 		if err != nil {
 			run.Infra(err.Error())
